@@ -19,7 +19,7 @@ import z3
 from engine.common.core import Obligation, Cover, mval
 from engine.pyvc.values import *
 from engine.pyvc import models
-from engine.pyvc.harness import toolkit, raw, where, new_engine, run_paths, path_obligations, register_fn, note_engine, qualname, par_cases
+from engine.pyvc.harness import toolkit, raw, where, new_engine, run_paths, path_obligations, register_fn, note_engine, qualname, par_cases, exc_note, sect
 from contracts.py import msgs, trx as T, radio as R
 from contracts.py.common import view_of, snapshot, frame_obligations, attr
 from spec import valid_msg as V
@@ -32,12 +32,12 @@ Z = models.zint
 
 def build(run, prop=ID):
     E = new_engine()
-    build_trans(run, prop, E)
-    build_windows(run, prop, E)
-    build_pick(run, prop, E)
-    build_v1(run, prop, E)
-    build_handle(run, prop, E)
-    build_gen(run, prop, E)
+    sect(run, build_trans, run, prop, E)
+    sect(run, build_windows, run, prop, E)
+    sect(run, build_pick, run, prop, E)
+    sect(run, build_v1, run, prop, E)
+    sect(run, build_handle, run, prop, E)
+    sect(run, build_gen, run, prop, E)
     note_engine(run, E)
     run.assume("random.randint(a, b) returns some integer in [a, b] (ValueError when a > b)")
     run.assume("FAKE_* thresholds >= 0 on the non-suppressed path (a negative threshold is C14's concern: the getter raises)")
@@ -66,7 +66,7 @@ def build_trans(run, prop, E):
             tag = {"what": "trans", "vcase": vcase}
             cs = "ver=" + vcase
             if out[0] == "raise":
-                run.add(Obligation(prop, qualname(f), "never_raises", p.pc, z3.BoolVal(False), kind="noexc", case=cs + "," + out[1].cls.__name__, where=where(f), tag=tag))
+                run.add(Obligation(prop, qualname(f), "never_raises", p.pc, z3.BoolVal(False), kind="noexc", note=exc_note(out[1]), case=cs + "," + out[1].cls.__name__, where=where(f), tag=tag))
                 continue
             r = out[1]
             ok_type = isinstance(r, SObj) and r.cls is dm.RxMsg
@@ -145,7 +145,7 @@ def build_pick(run, prop, E):
     for p, ctx, out in run_paths(E, lambda E: {"b": mk_burst148(E)}, lambda E, ctx: E.call(f, [gs.TrainingSeqGMSK, ctx["b"]])):
         tag = {"what": "pick"}
         if out[0] == "raise":
-            run.add(Obligation(prop, qualname(f), "never_raises", p.pc, z3.BoolVal(False), kind="noexc", case=out[1].cls.__name__, where=where(f), tag=tag))
+            run.add(Obligation(prop, qualname(f), "never_raises", p.pc, z3.BoolVal(False), kind="noexc", note=exc_note(out[1]), case=out[1].cls.__name__, where=where(f), tag=tag))
             continue
         r = out[1]
         nm = r.name if isinstance(r, gs.TrainingSeqGMSK) else (None if r is None else "?")
@@ -184,7 +184,7 @@ def build_v1(run, prop, E):
             tag = {"what": "v1", "blen": blen}
             run.add(*path_obligations(run, prop, f, p, cs))
             if out[0] == "raise":
-                run.add(Obligation(prop, qualname(f), "never_raises", p.pc, z3.BoolVal(False), kind="noexc", case=cs + "," + out[1].cls.__name__, where=where(f), tag=tag))
+                run.add(Obligation(prop, qualname(f), "never_raises", p.pc, z3.BoolVal(False), kind="noexc", note=exc_note(out[1]), case=cs + "," + out[1].cls.__name__, where=where(f), tag=tag))
                 continue
             m = ctx["m"]
             ci = m.attrs.get("ci")
@@ -250,7 +250,7 @@ def build_handle(run, prop, E):
         run.add(*path_obligations(run, prop, h, p, ""))
         tag = {"what": "handle"}
         if out[0] == "raise":
-            run.add(Obligation(prop, qualname(h), "never_raises", p.pc, z3.BoolVal(False), kind="noexc", case=out[1].cls.__name__, where=where(h), tag=tag))
+            run.add(Obligation(prop, qualname(h), "never_raises", p.pc, z3.BoolVal(False), kind="noexc", note=exc_note(out[1]), case=out[1].cls.__name__, where=where(h), tag=tag))
             continue
         sent, refused = out[1]
         t, s = ctx["self"], ctx["src"]
